@@ -1337,6 +1337,46 @@ fn run_conn(h: &Arc<Hier>, q: &Query, faults: &Arc<Vec<Fault>>) -> Exec {
     ex
 }
 
+/// One ValidationContext used twice for the same answer, whose RRSIG (made by the real signer) expires
+/// between the two validations.  Returns the two verdicts, or None if the first validation came too late.
+fn run_across_expiry(h: &Arc<Hier>) -> Option<(Verdict, Verdict, u32)> {
+    let q = Query { name: nm("www.zone.tld."), qtype: T_A };
+    let z = &h.zones[2];
+    let k = z.key.clone()?;
+    let mut resp = h.answer(&q.name, q.qtype);
+    let unix = || std::time::SystemTime::now().duration_since(std::time::UNIX_EPOCH).unwrap().as_secs() as u32;
+    let exp = unix() + 6;
+    let rds: Vec<Vec<u8>> = resp.sec[0].iter().filter(|e| e.rr.rtype == T_A).map(|e| e.rr.rdata.clone()).collect();
+    let sig = sign_set(&k, &q.name, T_A, 3600, &rds, exp - 86400, exp);
+    for e in resp.sec[0].iter_mut() {
+        if e.rr.rtype == T_RRSIG {
+            e.rr.rdata = sig.clone();
+        }
+    }
+    let bytes = resp.encode();
+    let st = Arc::new(UpState::default());
+    let up = Upstream { h: h.clone(), faults: Arc::new(vec![]), st, main: false };
+    let ta = TrustAnchors::from_u8(h.ta_text.as_bytes()).expect("trust anchor");
+    let vc = ValidationContext::new(ta, up);
+    let once = |vc: &ValidationContext<Upstream>| {
+        let mut msg = Message::from_octets(bytes.clone()).expect("message");
+        match guard(|| block_on(async { vc.validate_msg::<Vec<u8>, Vec<u8>>(&mut msg).await })) {
+            Ok(Ok((s, _))) => Verdict::State(state_name(s).into()),
+            Ok(Err(e)) => Verdict::Err(format!("{e}")),
+            Err(p) => Verdict::Panic(p),
+        }
+    };
+    let first = once(&vc);
+    if unix() > exp {
+        return None;
+    }
+    while unix() <= exp + 1 {
+        std::thread::sleep(Duration::from_millis(200));
+    }
+    let second = once(&vc);
+    Some((first, second, exp))
+}
+
 // ------------------------------------------------------------ oracle
 
 struct Parsed {
@@ -1458,6 +1498,24 @@ struct Finding {
     what: String,
 }
 
+/// Structural cause of an unvalidated RRset: the zone the validator attributes the RRset to (signer name
+/// of its first RRSIG, or the owner if it has none) is an insecure zone of the hierarchy, so the RRset
+/// gets state Insecure instead of Bogus and is then ignored.
+fn lacking_cause(h: &Hier, p: &Parsed, s: usize, ok: &Labels, t: u16, kinds: &str) -> String {
+    let sigs = p.sets[s].iter().find(|x| x.0 == (ok.clone(), T_RRSIG)).map(|x| x.1.clone()).unwrap_or_default();
+    let first = sigs.iter().find(|rd| rd.len() > 19 && u16::from_be_bytes([rd[0], rd[1]]) == t);
+    let attributed = match first {
+        Some(rd) => name_in_rdata(rd, 18),
+        None => unkey(ok),
+    };
+    let zi = h.zone_for(&attributed, T_A);
+    if !h.zones[zi].secure {
+        "cause=rrset-attributed-to-insecure-zone-is-ignored".into()
+    } else {
+        format!("fault={kinds}")
+    }
+}
+
 /// The Secure => authentic part of the oracle.
 fn check_secure(h: &Hier, out: &[u8], kinds: &str) -> Vec<Finding> {
     let mut f = vec![];
@@ -1465,58 +1523,44 @@ fn check_secure(h: &Hier, out: &[u8], kinds: &str) -> Vec<Finding> {
         f.push(Finding { sig: format!("C14|validator|secure-but-sections-unreadable|fault={kinds}"), what: "Secure reported for a message whose answer/authority sections cannot be read as the header counts say".into() });
         return f;
     };
+    // every RRset must be authentic data of a secure zone AND come with a signature that is valid NOW:
+    // the only such signatures that exist are the ones the real signer made for the current window
     for s in 0..2 {
         for ((ok, t), rds, _) in &p.sets[s] {
             if *t == T_RRSIG {
                 continue;
             }
+            let owner = unkey(ok);
+            let sec = ["answer", "authority"][s];
             if !h.authentic(ok, *t, rds) {
                 f.push(Finding {
-                    sig: format!("C14|validator|secure-with-unauthentic-rrset|fault={kinds}|rtype={}|section={}", tname(*t), ["answer", "authority"][s]),
+                    sig: format!("C14|validator|secure-with-rrset-lacking-valid-chain|{}|section={sec}", lacking_cause(h, &p, s, ok, *t, kinds)),
+                    what: format!("Secure reported although the {sec} section holds RRset {} {} ({} RR) that is not data of a secure zone of the authentic hierarchy", show(&owner), tname(*t), rds.len()),
+                });
+                continue;
+            }
+            let mut valid: Vec<&Vec<u8>> = vec![];
+            for z in &h.zones {
+                if let Some(w) = z.sigs.get(&(ok.clone(), *t)) {
+                    valid.extend(w[0].iter());
+                }
+            }
+            if let Truth::Pos { zone, src, wildcard: true, .. } = h.classify(&owner, *t) {
+                if let Some(w) = h.zones[zone].sigs.get(&(src, *t)) {
+                    valid.extend(w[0].iter());
+                }
+            }
+            let present = p.sets[s].iter().find(|x| x.0 == (ok.clone(), T_RRSIG)).map(|x| x.1.clone()).unwrap_or_default();
+            if !present.iter().any(|rd| valid.contains(&rd)) {
+                f.push(Finding {
+                    sig: format!("C14|validator|secure-with-rrset-lacking-valid-chain|{}|section={sec}", lacking_cause(h, &p, s, ok, *t, kinds)),
                     what: format!(
-                        "Secure reported although the {} section holds RRset {} {} ({} RR) that is not data of a secure zone of the authentic hierarchy",
-                        ["answer", "authority"][s],
-                        show(&unkey(ok)),
+                        "Secure reported although RRset {} {} in the {sec} section carries none of the currently valid RRSIGs of the authentic zone ({} RRSIG for the type present)",
+                        show(&owner),
                         tname(*t),
-                        rds.len()
+                        present.iter().filter(|rd| rd.len() > 2 && u16::from_be_bytes([rd[0], rd[1]]) == *t).count()
                     ),
                 });
-            }
-        }
-    }
-    // every (authentic) RRset must come with a signature that is valid NOW: the only such signatures
-    // that exist for authentic data are the ones the real signer made for the current window
-    if f.is_empty() {
-        for s in 0..2 {
-            for ((ok, t), _, _) in &p.sets[s] {
-                if *t == T_RRSIG {
-                    continue;
-                }
-                let mut valid: Vec<&Vec<u8>> = vec![];
-                let owner = unkey(ok);
-                for z in &h.zones {
-                    if let Some(w) = z.sigs.get(&(ok.clone(), *t)) {
-                        valid.extend(w[0].iter());
-                    }
-                }
-                if let Truth::Pos { zone, src, wildcard: true, .. } = h.classify(&owner, *t) {
-                    if let Some(w) = h.zones[zone].sigs.get(&(src, *t)) {
-                        valid.extend(w[0].iter());
-                    }
-                }
-                let present = p.sets[s].iter().find(|x| x.0 == (ok.clone(), T_RRSIG)).map(|x| x.1.clone()).unwrap_or_default();
-                if !present.iter().any(|rd| valid.contains(&rd)) {
-                    f.push(Finding {
-                        sig: format!("C14|validator|secure-without-valid-unexpired-signature|fault={kinds}|rtype={}|section={}", tname(*t), ["answer", "authority"][s]),
-                        what: format!(
-                            "Secure reported although RRset {} {} in the {} section carries none of the currently valid RRSIGs of the authentic zone ({} RRSIG present)",
-                            show(&owner),
-                            tname(*t),
-                            ["answer", "authority"][s],
-                            present.iter().filter(|rd| rd.len() > 2 && u16::from_be_bytes([rd[0], rd[1]]) == *t).count()
-                        ),
-                    });
-                }
             }
         }
     }
@@ -1940,7 +1984,7 @@ fn apply_op(h: &Hier, op: &Op, r: &mut Resp, main: bool) {
         Op::DropSig { id } => r.remove(&[*id]),
         Op::ReplaceSig { id, zone, owner, covered, patch } => {
             let donor = h.zones[*zone].sigs.get(&(key(&unshow(owner)), *covered)).map(|w| w[0][0].clone());
-            if let (Some(d), Some(e)) = (donor, r.get_mut(*id)) {
+            if let (Some(d), Some(e)) = (donor, r.get_mut(*id).filter(|e| e.rr.rtype == T_RRSIG)) {
                 let want = e.src.2;
                 e.rr.rdata = d;
                 if *patch == 1 {
@@ -1950,7 +1994,7 @@ fn apply_op(h: &Hier, op: &Op, r: &mut Resp, main: bool) {
         }
         Op::SigField { id, field } => {
             let parent_apex = |zi: usize| h.zones[zi.saturating_sub(1)].apex.clone();
-            if let Some(e) = r.get_mut(*id) {
+            if let Some(e) = r.get_mut(*id).filter(|e| e.rr.rtype == T_RRSIG && e.rr.rdata.len() > 20) {
                 let zi = e.src.0;
                 let rd = &mut e.rr.rdata;
                 let so = sig_off(rd);
@@ -1989,14 +2033,14 @@ fn apply_op(h: &Hier, op: &Op, r: &mut Resp, main: bool) {
             }
         }
         Op::Window { id, w } => {
-            if let Some(e) = r.get_mut(*id) {
+            if let Some(e) = r.get_mut(*id).filter(|e| e.rr.rtype == T_RRSIG) {
                 if let Some(s) = h.zones[e.src.0].sigs.get(&(e.src.1.clone(), e.src.2)) {
                     e.rr.rdata = s[*w as usize][0].clone();
                 }
             }
         }
         Op::ManyBad { id, n } => {
-            if let Some((s, i)) = r.find(*id) {
+            if let Some((s, i)) = r.find(*id).filter(|(s, i)| r.sec[*s][*i].rr.rtype == T_RRSIG && r.sec[*s][*i].rr.rdata.len() > 20) {
                 let e = r.sec[s][i].clone();
                 for j in 0..*n {
                     let mut rr = e.rr.clone();
@@ -2008,7 +2052,7 @@ fn apply_op(h: &Hier, op: &Op, r: &mut Resp, main: bool) {
             }
         }
         Op::Key { id, how } => {
-            if let Some((s, i)) = r.find(*id) {
+            if let Some((s, i)) = r.find(*id).filter(|(s, i)| r.sec[*s][*i].rr.rtype == T_DNSKEY && r.sec[*s][*i].rr.rdata.len() > 4) {
                 let e = r.sec[s][i].clone();
                 let rd = &mut r.sec[s][i].rr.rdata;
                 let kl = rd.len() - 4;
@@ -2035,7 +2079,7 @@ fn apply_op(h: &Hier, op: &Op, r: &mut Resp, main: bool) {
             }
         }
         Op::Ds { id, how } => {
-            if let Some((s, i)) = r.find(*id) {
+            if let Some((s, i)) = r.find(*id).filter(|(s, i)| r.sec[*s][*i].rr.rtype == T_DS && r.sec[*s][*i].rr.rdata.len() > 4) {
                 let e = r.sec[s][i].clone();
                 let rd = &mut r.sec[s][i].rr.rdata;
                 match how {
@@ -2167,10 +2211,16 @@ fn apply_op(h: &Hier, op: &Op, r: &mut Resp, main: bool) {
             }
         }
         Op::ReplaceBy { qname, qtype } => {
-            let d = h.answer(&unshow(qname), *qtype);
+            let mut d = h.answer(&unshow(qname), *qtype);
+            // fresh ids: positions of the replaced message no longer exist
+            for s in 0..3 {
+                for e in d.sec[s].iter_mut() {
+                    e.id += 1000;
+                }
+            }
             r.rcode = d.rcode;
             r.sec = d.sec;
-            r.next_id = d.next_id;
+            r.next_id = d.next_id + 1000;
         }
         Op::InjectInsecure { s } => {
             let owner = nm("inj.zone.tld.");
@@ -2657,7 +2707,7 @@ fn cases_for(hiers: &[Arc<Hier>], hi: usize, q: &Query, swap_only: bool, pairs: 
     let menu: Vec<Fault> = match pairs {
         0 => vec![],
         1 => singles.iter().filter(|x| x.1).map(|x| x.0.clone()).collect(),
-        _ => singles.iter().map(|x| x.0.clone()).collect(),
+        _ => singles.iter().filter(|x| x.1 || !matches!(x.0.op, Op::ReplaceBy { .. })).map(|x| x.0.clone()).collect(),
     };
     *counts.lock().unwrap().entry("cases|pair".into()).or_insert(0) += (menu.len() * menu.len().saturating_sub(1) / 2) as u64;
     (out, menu)
@@ -2681,6 +2731,18 @@ fn main() {
         let v: Value = serde_json::from_str(&std::fs::read_to_string(path).expect("replay file")).expect("json");
         let c = &v["case"];
         let hi = run.hiers.iter().position(|h| h.name == c["scenario"].as_str().unwrap_or("")).expect("scenario");
+        if c["special"].as_str() == Some("context-reuse-across-rrsig-expiry") {
+            let r = run_across_expiry(&run.hiers[hi]);
+            println!("context reuse across RRSIG expiry: {r:?}");
+            if let Some((_, second, exp)) = r {
+                if let Verdict::Panic(p) = &second {
+                    ctx.violation(&format!("C14|validator|context-reuse-after-rrsig-expiry|panic|{}", panic_sig(p)), &format!("panic after expiry {exp}: {p}"), c.clone());
+                } else if second.secure() {
+                    ctx.violation("C14|validator|context-reuse-after-rrsig-expiry|expired-signature-reported-secure", "Secure after expiry", c.clone());
+                }
+            }
+            ctx.finish(json!({"evaluations": 2, "distinct_nontrivial": 0, "rule": "replay", "samples": [c], "exhaustive": false}), &["replay of one case"]);
+        }
         let faults: Vec<Fault> = serde_json::from_value(c["faults"].clone()).expect("faults");
         let case = Case { hi, q: Query { name: unshow(c["qname"].as_str().unwrap()), qtype: c["qtype"].as_u64().unwrap() as u16 }, faults: Arc::new(faults), conn: true };
         println!("replaying: scenario {} query {} {} faults {:?}", run.hiers[hi].name, show(&case.q.name), tname(case.q.qtype), case.faults);
@@ -2735,6 +2797,9 @@ fn main() {
         let fs: Vec<Fault> = serde_json::from_value(d["faults"].clone()).unwrap_or_default();
         kinds_of(&fs)
     }));
+    // in parallel with the enumeration: context reuse across the expiry of a signature (S1)
+    let h0 = run.hiers[0].clone();
+    let expiry = std::thread::spawn(move || run_across_expiry(&h0));
     let cases: Vec<&Case> = planned.iter().flat_map(|p| p.0.iter()).collect();
     cases.par_iter().for_each(|c| run.run_case(c, Some(&wd)));
     // pairs, generated row by row
@@ -2750,6 +2815,38 @@ fn main() {
         }
     });
 
+    let expiry_json = match expiry.join().expect("expiry thread") {
+        None => {
+            run.stats.count("expiry-reuse|inconclusive-first-validation-too-late");
+            json!("inconclusive")
+        }
+        Some((first, second, exp)) => {
+            run.stats.eval();
+            run.stats.eval();
+            let replay = json!({"scenario": run.hiers[0].name, "special": "context-reuse-across-rrsig-expiry", "qname": "www.zone.tld.", "qtype": T_A, "faults": []});
+            if !first.secure() {
+                ctx.violation(&format!("C14|validator|unexpired-signature-not-secure|observed={}", first.short()), &format!("answer with an RRSIG valid until {exp} reported {first:?} before its expiry"), replay.clone());
+            }
+            match &second {
+                Verdict::Panic(p) => {
+                    ctx.violation(
+                        &format!("C14|validator|context-reuse-after-rrsig-expiry|panic|{}", panic_sig(p)),
+                        &format!("the same ValidationContext validated www.zone.tld. A as {first:?} while its RRSIG (expiration {exp}) was valid and panicked ({p}) when the identical message was validated again after the expiration"),
+                        replay.clone(),
+                    );
+                }
+                v if v.secure() => {
+                    ctx.violation(
+                        "C14|validator|context-reuse-after-rrsig-expiry|expired-signature-reported-secure",
+                        &format!("the same ValidationContext reported www.zone.tld. A Secure again after its only RRSIG had expired (expiration {exp})"),
+                        replay.clone(),
+                    );
+                }
+                _ => {}
+            }
+            json!({"first": first.short(), "second_after_expiry": second.short()})
+        }
+    };
     for c in cases.iter().filter(|c| c.faults.len() == 1).step_by((cases.len() / 6).max(1)) {
         run.stats.sample(8, || case_json(&run.hiers[c.hi], c, "validate_msg"));
     }
@@ -2781,6 +2878,7 @@ fn main() {
             "verdicts_per_fault_kind": per_kind,
             "counters": other,
             "upstream_query_budget": BUDGET,
+            "context_reuse_across_rrsig_expiry": expiry_json,
             "samples": run.stats.samples(),
         }),
         &[
